@@ -4,13 +4,14 @@ import Cpppo.Model.ClientRx
 driver for the client receive model (C13)
 
   `crx <pipe|sync|syncold> <depth> <index> <issued> <events>`
-  `prx <depth> <use|use|...> <events|events|...>`
+  `prx <n|e> <depth> <use|use|...> <events|events|...>`
 
   issued  `idx:ctxhex:svc,...` or `-`
   events  `,`-separated: a hex chunk, `E` (EOF) or `Q` (nothing within the timeout); `-` = none
 answers
   `connect:<err>`  or  `<idx>/<rawhex><+|->,...;<ok|err>`   (`+`: `collect` gave a value, `-`: `None`)
-  for `prx` one answer per use, joined by `|`, each prefixed `c<conn>:`; `refused` when out of connections
+  for `prx` one answer per use, joined by `|`: `c<conn>:<number of values>;<ok|err>` or `c<conn>:connect:<err>`;
+  `refused` when out of connections
 -/
 namespace Cpppo.Driver.ClientRx
 open Cpppo.Wire Cpppo.ClientRx
@@ -55,9 +56,12 @@ def showRes (r : Res) : String :=
 def showRun (rs : List Res) (e : End) : String :=
   (if rs.isEmpty then "-" else ",".intercalate (rs.map showRes)) ++ ";" ++ showEnd e
 
-def showUse : UseOut → String
+/-- `fmt = "n"`: number of values and end; `fmt = "e"`: the number only for a use that succeeded (what a
+`poll.run` observer sees) -/
+def showUse (fmt : String) : UseOut → String
   | .connfail n e => s!"c{n}:connect:{showConnErr e}"
-  | .ran n rs e => s!"c{n}:{showRun rs e}"
+  | .ran n rs .ok => s!"c{n}:{rs.length};ok"
+  | .ran n rs (.error e) => if fmt = "e" then s!"c{n}:?;{showErr e}" else s!"c{n}:{rs.length};{showErr e}"
   | .refused => "refused"
 
 def handle : List String → Option String
@@ -75,12 +79,12 @@ def handle : List String → Option String
         else if api = "syncold" then some (synchronousOld parseFrame issued st)
         else none
       pure (showRun rs e)
-  | ["prx", depth, uses, conns] => do
+  | ["prx", fmt, depth, uses, conns] => do
     let depth ← depth.toNat?
     let uses ← (splitOn uses '|').mapM parseIssued
     let conns ← (splitOn conns '|').mapM parseEvs
     let outs := proxyRun parseFrame depth conns { gateway := none, opened := 0 } uses
-    pure ("|".intercalate (outs.map showUse))
+    pure ("|".intercalate (outs.map (showUse fmt)))
   | _ => none
 
 end Cpppo.Driver.ClientRx
